@@ -1,9 +1,11 @@
 package checks
 
 import (
+	"bytes"
 	"encoding/json"
 	"fmt"
 	"math/rand/v2"
+	"regexp"
 	"strings"
 	"time"
 
@@ -102,6 +104,24 @@ func c10RunCfg(r *core.Run, kind string, n int, o storedrv.Opts, name string, sa
 	}
 	if len(segs) > 0 && len(segs[0].Lines) > 3 {
 		r.Sample(map[string]any{"store": kind, "first_lines": []string{string(segs[0].Lines[1]), string(segs[0].Lines[2]), string(segs[0].Lines[3])}})
+	}
+	if name == "c10" && kind == "memory" {
+		segSelfTest(r, "log", "LogTrace", "LogTrace_Exact.cfg", segs, []core.Corruption{
+			{"an acknowledged append is missing from the log", core.DropFirst(`"e":"append"`)},
+			{"one event appended twice", core.DupFirst(`"e":"append"`)},
+			{"a read returned an altered payload", core.ReplaceFirst(`"e":"read"`, `"ok":true`, `"ok":false`)},
+			{"a read skipped its first event", func(lines [][]byte) [][]byte {
+				re := regexp.MustCompile(`"evs":\[\{[^}]*\},`)
+				for i, l := range lines {
+					if bytes.Contains(l, []byte(`"e":"read"`)) && re.Match(l) {
+						out := append([][]byte{}, lines...)
+						out[i] = re.ReplaceAll(l, []byte(`"evs":[`))
+						return out
+					}
+				}
+				return nil
+			}},
+		})
 	}
 	cfg := "LogTrace_Exact.cfg"
 	if partial {
